@@ -53,14 +53,21 @@ func isLetterRune(r rune) bool {
 }
 
 // genFont draws a font of the given kind ("" = draw the kind as well).
-func genFont(t *rapid.T, kind string) *fontSpec {
+func genFont(t *rapid.T, kind string) *fontSpec { return genFontN(t, kind, 0) }
+
+// genFontN is genFont with a given number of glyphs (0: drawn).
+func genFontN(t *rapid.T, kind string, n int) *fontSpec {
 	if kind == "" {
 		kind = rapid.SampledFrom([]string{"names+cmap", "names+cmap", "cmap", "cmap", "bare", "mixed", "mixed"}).Draw(t, "fontKind")
 	}
 	fs := &fontSpec{Kind: kind, Runes: map[rune]glyph.ID{}}
-	fs.N = rapid.IntRange(6, 24).Draw(t, "numGlyphs")
-	if rapid.IntRange(0, 19).Draw(t, "bigFont") == 0 {
-		fs.N = rapid.IntRange(200, 300).Draw(t, "numGlyphsBig")
+	if n > 0 {
+		fs.N = n
+	} else {
+		fs.N = rapid.IntRange(6, 24).Draw(t, "numGlyphs")
+		if rapid.IntRange(0, 19).Draw(t, "bigFont") == 0 {
+			fs.N = rapid.IntRange(200, 300).Draw(t, "numGlyphsBig")
+		}
 	}
 	hasNames := kind == "names+cmap" || kind == "mixed"
 	hasCmap := kind != "bare"
@@ -150,8 +157,19 @@ type lgen struct {
 	// applying the list always terminates
 	simple []int
 	total  int // number of lookups in the list
+	// long scales every list length, set size, class count and rule count
+	// by four (the explainer breaks long lists over several lines)
+	long bool
 	// statistics
 	feat map[string]bool
+}
+
+// hi is the upper bound of a count: max, or four times max in long mode.
+func (g *lgen) hi(max int) int {
+	if g.long {
+		return 4 * max
+	}
+	return max
 }
 
 func (g *lgen) gid(label string) glyph.ID {
@@ -173,7 +191,7 @@ func (g *lgen) coreGid(label string) glyph.ID {
 }
 
 func (g *lgen) seq(label string, min, max int) []glyph.ID {
-	n := rapid.IntRange(min, max).Draw(g.t, label+"Len")
+	n := rapid.IntRange(min, g.hi(max)).Draw(g.t, label+"Len")
 	var res []glyph.ID
 	for i := 0; i < n; i++ {
 		res = append(res, g.gid(label))
@@ -183,6 +201,12 @@ func (g *lgen) seq(label string, min, max int) []glyph.ID {
 
 // set returns a sorted set of distinct glyphs.
 func (g *lgen) set(label string, min, max int) []glyph.ID {
+	if g.long && max >= 3 {
+		max = g.hi(max)
+		if max > g.n-1 {
+			max = g.n - 1
+		}
+	}
 	n := rapid.IntRange(min, max).Draw(g.t, label+"Size")
 	seen := map[glyph.ID]bool{}
 	var res []glyph.ID
@@ -197,6 +221,9 @@ func (g *lgen) set(label string, min, max int) []glyph.ID {
 	}
 	for tries := 0; len(res) < n && tries < 4*n+8; tries++ {
 		x := g.coreGid(label)
+		if g.long && tries%2 == 1 {
+			x = glyph.ID(rapid.IntRange(1, g.n-1).Draw(g.t, label+"Wide"))
+		}
 		if !seen[x] {
 			seen[x] = true
 			res = append(res, x)
@@ -315,7 +342,7 @@ func (g *lgen) actions(label string, inputLen int) []gtab.SeqLookup {
 // classes draws a class table with classes 1..k, every class non-empty
 // (the notation defines classes one by one and rejects an empty class).
 func (g *lgen) classes(label string, maxK int) (classdef.Table, int) {
-	k := rapid.IntRange(0, maxK).Draw(g.t, label+"K")
+	k := rapid.IntRange(0, g.hi(maxK)).Draw(g.t, label+"K")
 	c := classdef.Table{}
 	for cls := 1; cls <= k; cls++ {
 		placed := false
@@ -346,7 +373,7 @@ func (g *lgen) classes(label string, maxK int) (classdef.Table, int) {
 }
 
 func (g *lgen) classSeq(label string, k, min, max int) []uint16 {
-	n := rapid.IntRange(min, max).Draw(g.t, label+"Len")
+	n := rapid.IntRange(min, g.hi(max)).Draw(g.t, label+"Len")
 	var res []uint16
 	for i := 0; i < n; i++ {
 		res = append(res, uint16(rapid.IntRange(0, k).Draw(g.t, label)))
@@ -419,7 +446,7 @@ func (g *lgen) gsubSubtable(typ int, idx int) gtab.Subtable {
 	case 5:
 		switch rapid.IntRange(1, 3).Draw(t, lab+"Fmt") {
 		case 1:
-			n := rapid.IntRange(1, 4).Draw(t, lab+"NRules")
+			n := rapid.IntRange(1, g.hi(4)).Draw(t, lab+"NRules")
 			byFirst := map[glyph.ID][]*gtab.SeqRule{}
 			var firsts []glyph.ID
 			for i := 0; i < n; i++ {
@@ -441,7 +468,7 @@ func (g *lgen) gsubSubtable(typ int, idx int) gtab.Subtable {
 		case 2:
 			cls, k := g.classes(lab+"Cls", 3)
 			sub := &gtab.SeqContext2{Cov: covOf(g.set(lab+"Cov", 0, 4)), Input: cls, Rules: make([][]*gtab.ClassSeqRule, k+1)}
-			n := rapid.IntRange(1, 4).Draw(t, lab+"NRules")
+			n := rapid.IntRange(1, g.hi(4)).Draw(t, lab+"NRules")
 			for i := 0; i < n; i++ {
 				c0 := rapid.IntRange(0, k).Draw(t, lab+"C0")
 				in := g.classSeq(lab+"In", k, 0, 3)
@@ -449,7 +476,7 @@ func (g *lgen) gsubSubtable(typ int, idx int) gtab.Subtable {
 			}
 			return sub
 		default:
-			n := rapid.IntRange(1, 3).Draw(t, lab+"NIn")
+			n := rapid.IntRange(1, g.hi(3)).Draw(t, lab+"NIn")
 			sub := &gtab.SeqContext3{}
 			for i := 0; i < n; i++ {
 				sub.Input = append(sub.Input, setOf(g.set(lab+"InSet", 0, 3)))
@@ -460,7 +487,7 @@ func (g *lgen) gsubSubtable(typ int, idx int) gtab.Subtable {
 	case 6:
 		switch rapid.IntRange(1, 3).Draw(t, lab+"Fmt") {
 		case 1:
-			n := rapid.IntRange(1, 4).Draw(t, lab+"NRules")
+			n := rapid.IntRange(1, g.hi(4)).Draw(t, lab+"NRules")
 			byFirst := map[glyph.ID][]*gtab.ChainedSeqRule{}
 			var firsts []glyph.ID
 			for i := 0; i < n; i++ {
@@ -495,7 +522,7 @@ func (g *lgen) gsubSubtable(typ int, idx int) gtab.Subtable {
 				Cov: covOf(g.set(lab+"Cov", 0, 4)), Backtrack: back, Input: in, Lookahead: look,
 				Rules: make([][]*gtab.ChainedClassSeqRule, ki+1),
 			}
-			n := rapid.IntRange(1, 3).Draw(t, lab+"NRules")
+			n := rapid.IntRange(1, g.hi(3)).Draw(t, lab+"NRules")
 			for i := 0; i < n; i++ {
 				c0 := rapid.IntRange(0, ki).Draw(t, lab+"C0")
 				inSeq := g.classSeq(lab+"In", ki, 0, 2)
@@ -513,9 +540,9 @@ func (g *lgen) gsubSubtable(typ int, idx int) gtab.Subtable {
 			return sub
 		default:
 			sub := &gtab.ChainedSeqContext3{}
-			nb := rapid.IntRange(0, 2).Draw(t, lab+"NBack")
-			ni := rapid.IntRange(1, 2).Draw(t, lab+"NIn")
-			nl := rapid.IntRange(0, 2).Draw(t, lab+"NLook")
+			nb := rapid.IntRange(0, g.hi(2)).Draw(t, lab+"NBack")
+			ni := rapid.IntRange(1, g.hi(2)).Draw(t, lab+"NIn")
+			nl := rapid.IntRange(0, g.hi(2)).Draw(t, lab+"NLook")
 			for i := 0; i < nb; i++ {
 				sub.Backtrack = append(sub.Backtrack, setOf(g.set(lab+"BackSet", 0, 3)))
 			}
@@ -552,7 +579,7 @@ func (g *lgen) gposSubtable(typ int, idx, sub int) gtab.Subtable {
 	case 2:
 		if rapid.Bool().Draw(t, lab+"Fmt1") {
 			st := gtab.Gpos2_1{}
-			n := rapid.IntRange(1, 4).Draw(t, lab+"NPairs")
+			n := rapid.IntRange(1, g.hi(4)).Draw(t, lab+"NPairs")
 			for i := 0; i < n; i++ {
 				p := glyph.Pair{Left: g.coreGid(lab + "L"), Right: g.coreGid(lab + "R")}
 				st[p] = g.pairAdjust(lab + "Adj")
@@ -615,7 +642,7 @@ func (g *lgen) gposSubtable(typ int, idx, sub int) gtab.Subtable {
 // a class empty, so gaps in the numbering are part of the notation (only
 // the last class must be non-empty).
 func (g *lgen) classDefGaps(label string) (classdef.Table, int) {
-	k := rapid.IntRange(0, 3).Draw(g.t, label+"K")
+	k := rapid.IntRange(0, g.hi(3)).Draw(g.t, label+"K")
 	c := classdef.Table{}
 	top := 0
 	for cls := 1; cls <= k; cls++ {
@@ -655,6 +682,10 @@ type lookupCase struct {
 // only >= 0 restricts the list to one lookup type.
 func genLookups(t *rapid.T, fs *fontSpec, gpos bool, only int) *lookupCase {
 	g := &lgen{t: t, n: fs.N, feat: map[string]bool{}}
+	if rapid.IntRange(0, 5).Draw(t, "longLists") == 0 {
+		g.long = true
+		g.feat["long-lists"] = true
+	}
 	nCore := rapid.IntRange(3, 6).Draw(t, "nCore")
 	if nCore > fs.N-1 {
 		nCore = fs.N - 1
